@@ -1100,12 +1100,12 @@ uint64_t bufr_missing_ivalue( int nbits )
  */
 int64_t bufr_cvt_ivalue( uint64_t value, int nbits )
    {
-   uint64_t         missing;
    int64_t         signbit;
 
-   missing = bufr_missing_ivalue( nbits );
-   if (value == missing) return -1;
-
+/*
+ * the operand of 2 03 YYY is a sign and magnitude integer: it has no "missing" value,
+ * all ones is -(2^(YYY-1)-1)
+ */
    signbit = 1ULL << (nbits-1);
    if (value & signbit)
       {
